@@ -181,4 +181,103 @@ Proof.
   rewrite (below_suppressed X (st_path f1) HX (Hok f1 (or_introl eq_refl)) Hb) in Hf1. discriminate.
 Qed.
 
+
+Lemma rwalk_app_dir f j a b i : rwalk f j (a ++ b) = Some i -> b <> [] ->
+  exists k, rwalk f j a = Some k /\ is_dir f k = true.
+Proof.
+  rewrite rwalk_app. destruct (rwalk f j a) as [k|]; [|discriminate]. intros H Hb. exists k. split; auto.
+  destruct b as [|c0 r]; [congruence|]. simpl in H. unfold is_dir. destruct (dir_of f k); [reflexivity|discriminate].
+Qed.
+
+(* a delete registers no file *)
+Lemma apply_change_del_pipes idx p s st : r_pipes (apply_change c idx 2 p s st) = r_pipes st.
+Proof.
+  unfold apply_change. destruct (negb (live st)); [reflexivity|].
+  destruct (spend st) as [st1|] eqn:Es; [|reflexivity].
+  destruct (spend_core st st1 Es) as (_ & _ & _ & Ep & _).
+  cbn [r_fs set_tmps].
+  destruct (dw_handle c (r_fs st1) (hd default_tmp (r_tmps st1)) 2 p s) as [f' res] eqn:Edw.
+  destruct res as [|async newdir]; [simpl; exact Ep|].
+  assert (Ha : async = false).
+  { destruct async; auto. pose proof (dw_handle_delete_res c (r_fs st1) (hd default_tmp (r_tmps st1)) p s true newdir) as H.
+    rewrite Edw in H. specialize (H eq_refl). discriminate. }
+  subst async. destruct newdir; simpl; exact Ep.
+Qed.
+
+(* inode kinds are those of the initial file system *)
+Lemma base_tag st acc i : GB st acc -> i < b0 -> itag (get (r_fs st) i) = itag (get f0 i).
+Proof. intros G Hi. apply (st_tag _ _ _ _ _ (g_step D f0 tmps0 st acc G) i Hi). Qed.
+
+Lemma base_is_dir st acc i : GB st acc -> i < b0 -> is_dir (r_fs st) i = is_dir f0 i.
+Proof. intros G Hi. apply (is_dir_step D TAll b0 f0 (r_fs st) i (g_step D f0 tmps0 st acc G) Hi). Qed.
+
+Lemma base_is_link st acc i : GB st acc -> i < b0 -> is_link (r_fs st) i = is_link f0 i.
+Proof. intros G Hi. apply (is_link_step D TAll b0 f0 (r_fs st) i (g_step D f0 tmps0 st acc G) Hi). Qed.
+
+Lemma old_ino_lt s i : In s L0 -> rwalk f0 D (comps (st_path s)) = Some i -> i < b0.
+Proof.
+  intros _ Hw. apply (reach_lt D f0 i W0). apply (rwalk_reach D f0 _ D i (reach_refl D f0) Hw).
+Qed.
+
+
+(* ---------------- a directory kept as a directory: the change touches no entry ---------------- *)
+Definition inplace_pre (st : rstate) (p : bytes) : Prop :=
+  ok_path p = true /\ safe (r_fs st) D (removelast (comps p))
+  /\ exists dd i, rwalk (r_fs st) D (removelast (comps p)) = Some dd
+                  /\ blookup (last (comps p) []) (ents (r_fs st) dd) = Some i
+                  /\ is_dir (r_fs st) i = true /\ get (r_fs st) i <> None.
+
+Lemma apply_change_inplace idx kind p s st acc :
+  GB st acc -> N.eqb kind 2 = false -> mode_is_dir (st_mode s) = true ->
+  (live st = true -> inplace_pre st p) ->
+  let st' := apply_change c idx kind p s st in
+  GB st' acc /\ same_diff st st' /\ (live st' = true -> live st = true)
+  /\ exists b, b0 <= b /\ step TNone b (r_fs st) (r_fs st').
+Proof.
+  intros G Hk Hdir Hpre. cbv zeta. unfold apply_change.
+  pose proof (g_wf D f0 tmps0 st acc G) as Wg. pose proof (g_next D f0 tmps0 st acc G) as Hb.
+  assert (Hsame : exists b, b0 <= b /\ step TNone b (r_fs st) (r_fs st)).
+  { exists b0. split; [lia|]. apply step_refl; auto. }
+  destruct (live st) eqn:L; cbn [negb].
+  2:{ split; [exact G|]. split; [unfold same_diff; repeat split; reflexivity|]. split; [intros H; congruence|exact Hsame]. }
+  destruct (Hpre eq_refl) as (Hok & Hsafe & Hex).
+  destruct (spend st) as [st1|] eqn:Es.
+  2:{ split; [|split; [repeat split|split; [intros L'; rewrite live_set_out in L'; [discriminate|discriminate]|exact Hsame]]].
+      apply (GBase_quiet D f0 tmps0 st _ acc b0 G); try (unfold b0; lia); simpl.
+      - apply step_refl; auto.
+      - repeat split.
+      - apply G. }
+  destruct (spend_core st st1 Es) as (Ef & (Ev & Ese & Et) & El & Ep & Eae & Efi & Eo & Edt & Ecl & Ewa & Erm & Ede & Eout).
+  cbn [r_fs set_tmps]. rewrite Ef.
+  destruct (dw_inplace_quiet D c (r_fs st) (hd default_tmp (r_tmps st1)) kind p s Wg eq_refl Hok Hsafe Hk Hdir Hex) as [S Ha].
+  destruct (dw_handle c (r_fs st) (hd default_tmp (r_tmps st1)) kind p s) as [f' res] eqn:Edw. cbn [fst snd] in S, Ha.
+  assert (Hnext : f_next (r_fs st) <= f_next f') by (apply (st_next _ _ _ _ _ S)).
+  assert (Gs : FsReachP.step D TAll b0 f0 f').
+  { apply (glob_step D f0 TNone (f_next (r_fs st)) (r_fs st)); auto. apply G. }
+  assert (Hpk : forall id pp, In (id, pp) (r_pipes st) -> In (pp_path pp) (accpaths acc) /\ pipe_ok D f0 tmps0 f' pp).
+  { intros id pp Hin. destruct (g_pipes D f0 tmps0 st acc G id pp Hin) as [A B]. split; auto.
+    apply (quiet_pipe_ok D f0 tmps0 (f_next (r_fs st)) (r_fs st) f' pp Wg S B). }
+  assert (Htl : forall t, In t (tl (r_tmps st1)) -> tmpname tmps0 t).
+  { intros t Ht. apply (g_tmps D f0 tmps0 st acc G). rewrite <- Et. destruct (r_tmps st1); [destruct Ht|right; exact Ht]. }
+  assert (Hq : exists b, b0 <= b /\ step TNone b (r_fs st) f') by (exists (f_next (r_fs st)); split; auto).
+  destruct res as [|async newdir].
+  - split; [|split; [cbn; repeat split; auto|split; [intros L'; rewrite live_set_dead in L'; discriminate|exact Hq]]].
+    constructor; cbn; try (rewrite ?Ev, ?Ese; apply G); auto.
+    rewrite Ep. exact Hpk.
+  - assert (Easync : async = false) by (apply (Ha async newdir eq_refl)). subst async.
+    set (st4 := if newdir
+                then set_tmps (upd (set_tmps st1 (tl (r_tmps st1)) (r_dirtimes st1)) f')
+                       (r_tmps (upd (set_tmps st1 (tl (r_tmps st1)) (r_dirtimes st1)) f'))
+                       (bset p (st_mtime s) (r_dirtimes (upd (set_tmps st1 (tl (r_tmps st1)) (r_dirtimes st1)) f')))
+                else upd (set_tmps st1 (tl (r_tmps st1)) (r_dirtimes st1)) f').
+    assert (F4 : r_fs st4 = f' /\ r_vstk st4 = r_vstk st /\ r_seen st4 = r_seen st /\ r_pipes st4 = r_pipes st
+                 /\ r_tmps st4 = tl (r_tmps st1) /\ r_old st4 = r_old st /\ r_rmdir st4 = r_rmdir st
+                 /\ r_closed st4 = r_closed st /\ r_waited st4 = r_waited st).
+    { unfold st4. destruct newdir; cbn; rewrite ?Ev, ?Ese, ?Ep, ?Eo, ?Erm, ?Ecl, ?Ewa; repeat split; auto. }
+    destruct F4 as (F1 & F2 & F3 & F5 & F6 & F7 & F8 & F9 & F10).
+    split; [|split; [|split; [auto|rewrite F1; exact Hq]]].
+    + constructor; rewrite ?F1, ?F2, ?F3, ?F5, ?F6; try apply G; auto.
+    + unfold same_diff. rewrite F2, F3, F7, F8, F9, F10. repeat split.
+Qed.
+
 End RecvOld.
